@@ -182,7 +182,10 @@ static int worker_main(const Options &o) {
       continue;
     fprintf(f, "{\"start\":%ld}\n", i);
     fflush(f);
-    alarm(180); // watchdog: a run that hangs kills this worker; the driver restarts it
+    // watchdog: a run that hangs (or blows up exponentially inside one domain
+    // operation, where no tick is counted) kills this worker; the driver saves the
+    // case and restarts the worker. Honest runs take milliseconds.
+    alarm(tier.thorough ? 180 : 40);
     RunRecord rr = do_run(engs, tier, doms, o.seed, i, st);
     alarm(0);
     done++;
